@@ -99,6 +99,14 @@ def callsOf (T : Tables) (L : Lib Bytes) (lines : List Bytes) : List (Triple Byt
     | .msg t => if t.action = T.helpRequest then none else some t
     | .bad _ => none)
 
+/-- per request line: the number of the dispatcher call it leads to, or null (help, blank, undecodable) -/
+def callIdx (T : Tables) (L : Lib Bytes) : Nat → List Bytes → List Json
+  | _, [] => []
+  | n, l :: ls =>
+    match nextMessage T L l with
+    | .msg t => if t.action = T.helpRequest then Json.null :: callIdx T L n ls else jnat n :: callIdx T L (n + 1) ls
+    | .bad _ => Json.null :: callIdx T L n ls
+
 def tripleJson (t : Triple Bytes) : Json :=
   Json.mkObj [("a", jhex t.action), ("s", jopt jhex t.spec), ("d", jopt jhex t.data)]
 
@@ -172,12 +180,14 @@ def handle (j : Json) : R Json := do
       let one := serveF tables L (scripted script) ⟨n, true⟩ [] 0 [chunks.flatten]
       return Json.mkObj [("outs", jarr (r.outs.map (outJson L))), ("ncalls", jnat r.st), ("done", jnat r.done),
         ("torn", jopt (outJson L) r.torn), ("running", Json.bool r.sock.running),
+        ("callidx", jarr (callIdx tables L 0 ((feedAll [] chunks).lines.take r.done))),
         ("calls", jarr ((callsOf tables L ((feedAll [] chunks).lines.take r.done)).map tripleJson)),
         ("same_as_unsegmented", Json.bool ((wire L r.outs == wire L one.outs) && r.done == one.done && r.st == one.st
           && r.torn == one.torn))]
     let r := serve tables L (scripted script) [] 0 chunks
     let one := serve tables L (scripted script) [] 0 [chunks.flatten]
     return Json.mkObj [("outs", jarr (r.outs.map (outJson L))), ("rest", jhex r.buf), ("ncalls", jnat r.st),
+      ("callidx", jarr (callIdx tables L 0 (feedAll [] chunks).lines)),
       ("calls", jarr ((callsOf tables L (feedAll [] chunks).lines).map tripleJson)),
       ("same_as_unsegmented", Json.bool ((wire L r.outs == wire L one.outs) && r.buf == one.buf))]
   | "judge" =>
